@@ -124,6 +124,17 @@ fn gen_case(t: &mut Tape) -> Case {
     if t.chance(1, 8) {
         unknown_fields.push(("locale".to_string(), "{ a = 1 }".to_string()));
     }
+    if t.chance(1, 6) {
+        // values of unknown fields that span several lines; continuation lines may start with `[`, `"`, `#` or `]`
+        let v = [
+            "[\n[1, 2],\n[3, 4],\n]",
+            "\"\"\"\nfirst line\n[draft] second line\n[package.metadata.leptos-i18n]\ndefault = \\\"zz\\\"\n\"\"\"",
+            "'''\n[home](/)\n[[bin]]\n'''",
+            "[\n  \"a\",\n# a comment inside the array\n  \"b\",\n]",
+            "[\r\n[\"x\"],\r\n]",
+        ][t.pick(5)];
+        unknown_fields.push((["notes", "matrix", "extra-data"][t.pick(3)].to_string(), v.to_string()));
+    }
     let missing_default = t.chance(1, 20);
     let missing_locales = t.chance(1, 20);
     let np = t.range(0, 3);
